@@ -21,7 +21,7 @@ RULE = ('seeded generator: random apertures 4..22 per side and random partitions
         'descriptors; non-trivial = k >= 2 or padded.')
 ASSUMPTIONS = ['segments of one plane are pairwise disjoint (a partition)']
 PLAN = {'quick': {'gen': 8}, 'thorough': {'gen': 16, 'tests': 1}}
-REQUIRED_BUCKETS = ['defaults', 'k=1', 'k=2', 'k=3-8', 'bbox-overlap', 'style:stripes', 'style:blobs', 'style:interleaved',
+REQUIRED_BUCKETS = ['defaults', 'reuse', 'k=1', 'k=2', 'k=3-8', 'bbox-overlap', 'style:stripes', 'style:blobs', 'style:interleaved',
                     'chain:1', 'chain:2', 'chain:2-segmented', 'chain:2-same-boxes', 'propagated', 'padded', 'tilt-chain', 'segment-tilts', 'fitted-vs-global',
                     'fft', 'fft:scratch', 'groups:partial', 'rescale-after-use']
 REQUIRED_ANCHORS = ['probe:propagate_dft', 'probe:propagate_fft', 'probe:Wavefront.insert', 'anchor:Plane.multiply', 'anchor:slice_offset', 'anchor:boundary_slice',
